@@ -34,3 +34,7 @@ Definition mk_dcase (k : case) (comms : list (N * list N)) (version date : list 
   {| d_case := k; d_comms := comms; d_version := version; d_date := date; d_cmdline := cmdline;
      d_noev := noev; d_doc := doc |}.
 Definition cm (tid : int) (comm : list N) : N * list N := (n_ tid, comm).
+
+Require Import UV.C15.GraphF.
+Definition mk_fcase (k : case) (func : list N) (rows : option (list grow)) : fcase :=
+  {| fk_case := k; fk_func := func; fk_rows := rows |}.
